@@ -25,7 +25,7 @@ Definition reserved_names : list ustring :=
   map u ["custom_properties"; "allow_custom"; "interoperability"; "self"; "_valid_refs"; "extensions_dummy_none"]%string.
 
 Definition init_complete (i : preinit) : bool :=
-  match i with INone | IObservedDataWarn | IBundleObjects => true | _ => false end.
+  match i with INone | IObservedDataWarn | IBundleObjects | IPositional _ => true | _ => false end.
 
 Definition no_failures (l : list failure) : bool := match l with [] => true | _ => false end.
 
@@ -34,7 +34,7 @@ Definition class_complete (w sp : world) (cid : ustring) : bool :=
   | Some c, Some sc =>
     no_failures (class_accept_failures sc c) &&
     unodup (map sname (cslots c)) &&
-    forallb default_wf (cslots c) && refs_trivial c && init_complete (cinit c) &&
+    forallb default_wf (cslots c) && init_complete (cinit c) &&
     forallb (fun s => negb (mem_ustr (sname s) reserved_names)) (cslots c) &&
     forallb (constr_complete_ok c sc) (ext_constr c ++ ccons c) &&
     nodefault c (u "granular_markings") &&
@@ -50,7 +50,7 @@ Definition class_complete (w sp : world) (cid : ustring) : bool :=
 
 Definition input_complete (c sc : cls) (mem : list (ustring * jvalue)) : bool :=
   forallb (fun kv => match find_slot c (fst kv), find_slot sc (fst kv) with
-                     | Some s, Some s' => kind_complete2 (skind s) && jin_ok (skind s') (snd kv)
+                     | Some s, Some s' => kind_complete2 (skind s) && jin_ok (skind s') (snd kv) && refs_needless c s
                      | _, _ => false
                      end) mem &&
   negb (amem (u "extensions") mem) && negb (amem (u "granular_markings") mem).
@@ -82,7 +82,6 @@ Section CompRun.
   Hypothesis Hcaf : class_accept_failures sc c = [].
   Hypothesis Hnames : unodup (map sname (cslots c)) = true.
   Hypothesis Hdefw : forallb default_wf (cslots c) = true.
-  Hypothesis Hrefs : refs_trivial c = true.
   Hypothesis Hres : forallb (fun s => negb (mem_ustr (sname s) reserved_names)) (cslots c) = true.
   Hypothesis Hcons : forallb (constr_complete_ok c sc) (ext_constr c ++ ccons c) = true.
   Hypothesis Hgran : nodefault c (u "granular_markings") = true.
@@ -119,12 +118,21 @@ Section CompRun.
     cbn [fst snd] in Hi.
     destruct (find_slot c k) as [s|] eqn:Es; try discriminate.
     destruct (find_slot sc k) as [s'|] eqn:Es'; try discriminate.
-    apply andb_true_iff in Hi. destruct Hi as [Hk Hj].
+    apply andb_true_iff in Hi. destruct Hi as [Hi _]. apply andb_true_iff in Hi. destruct Hi as [Hk Hj].
     exists s, s'. split; auto. split; auto.
     destruct (caf_parts _ _ Hcaf) as (_ & Hacc & _).
     destruct (find_slot_spec _ _ _ Es') as [Hs' Hn'].
     destruct (Hacc s' Hs') as [s0 [Hf0 Ha0]]. rewrite Hn', Es in Hf0. injection Hf0 as <-.
     split; auto. split; auto. split; auto. eapply V1; eauto.
+  Qed.
+
+  Lemma Hrefs_in : forall k v s, In (k, v) mem -> find_slot c k = Some s -> refs_needless c s = true.
+  Proof.
+    intros k v s Hin Hf.
+    pose proof Hinp as Hinp'. unfold input_complete in Hinp'. apply andb_true_iff in Hinp'. destruct Hinp' as [Hi _].
+    apply andb_true_iff in Hi. destruct Hi as [Hi _]. rewrite forallb_forall in Hi. specialize (Hi _ Hin).
+    cbn [fst snd] in Hi. rewrite Hf in Hi. destruct (find_slot sc k); try discriminate.
+    apply andb_true_iff in Hi. tauto.
   Qed.
 
   Lemma key_is_slot k : amem k mem = true -> exists s, In s (cslots c) /\ sname s = k.
@@ -160,7 +168,7 @@ Section CompRun.
     pose proof Hinp as Hinp'. unfold input_complete in Hinp'. apply andb_true_iff in Hinp'. destruct Hinp' as [Hi Hng].
     apply andb_true_iff in Hi. destruct Hi as [_ Hne]. apply negb_true_iff in Hne, Hng.
     (* the loop *)
-    destruct (assign_loop_complete vr ev w sp pok rc rp ro Hvr Hsr Hnow Hu4 c sc Hnames Hdefw' Hrefs mem m Hmem
+    destruct (assign_loop_complete vr ev w sp pok rc rp ro Hvr Hsr Hnow Hu4 c sc Hnames Hdefw' mem m Hmem Hrefs_in
                 vrefs (map sname (cslots c)) []) as (setting & Hloop & Hent & _ & Hkeys & Hgiven).
     { apply unodup_NoDup. exact Hnames. }
     { intros n Hn. apply in_map_iff in Hn. destruct Hn as [s [E Hs]]. eauto. }
@@ -270,21 +278,11 @@ Proof.
   rewrite (Hres (u "_valid_refs") eq_refl), (Hres (u "allow_custom") eq_refl),
           (Hres (u "interoperability") eq_refl), (Hres (u "self") eq_refl). cbn [orb].
   set (vrefs := match cfamily c with FSco => Some [] | _ => None end).
-  destruct (construct_generic_complete vr ev w sp pok sok Hvr Hsr Hev c sc mem m Hfsp Hcaf K6 K5 K4 K2 K1 K0 Hvalid Hinp
+  destruct (construct_generic_complete vr ev w sp pok sok Hvr Hsr Hev c sc mem m Hfsp Hcaf K5 K4 K2 K1 K0 Hvalid Hinp
               (fun k a i kw => run vr ev w pok sok m (RConstruct k a i kw None))
               (fun a i d => run vr ev w pok sok m (RParse a i None d))
               (fun vv refs a d => run vr ev w pok sok m (RParseObs (Some vv) refs a false d))
               vrefs) as (setting & Hgen & Hent & Hin).
-  assert (Egen : (match cinit c with
-                  | INone | IObservedDataWarn | IBundleObjects =>
-                    construct_generic vr ev w pok sok
-                      (fun k a i kw => run vr ev w pok sok m (RConstruct k a i kw None))
-                      (fun a i d => run vr ev w pok sok m (RParse a i None d))
-                      (fun vv refs a d => run vr ev w pok sok m (RParseObs (Some vv) refs a false d))
-                      (S m) c false false mem [] vrefs
-                  | _ => Unmodelled
-                  end) = Ok (PObject (cid c) setting (defaulted_names c setting) false)).
-  { destruct (cinit c); try discriminate K3; exact Hgen. }
   assert (Given : forall k v, In (k, v) mem -> forall inner,
              (forall k', ustr_eqb k' (u "id") = false \/ alookup (u "id") mem <> None -> alookup k' inner = alookup k' setting) ->
              exists x s', alookup k inner = Some x /\ find_slot sc k = Some s' /\ jsame (skind s') v (encode true x)).
@@ -298,9 +296,22 @@ Proof.
   assert (Extra : forall k x, alookup k setting = Some x -> alookup k mem = None -> default_entry vr ev c k x).
   { intros k x Hx Hn. pose proof (Hent k x Hx) as He. unfold ent_ok in He. rewrite Hn in He.
     destruct He as (s & Hf & Hd & Hsd). exists s. auto. }
+  (* positional __init__ forms (repaired variant): no given value is None, so nothing is dropped *)
+  assert (Epos : forall names, filter (fun kv => negb (mem_ustr (fst kv) names) ||
+                                  (if vr_positional_none vr then negb (jvalue_eqb (snd kv) JNull) else truthy (snd kv))) mem = mem).
+  { intros names. rewrite (vc_pos vr Hvr).
+    assert (Hall : forall l : list (ustring * jvalue), (forall kv, In kv l -> snd kv <> JNull) ->
+                     filter (fun kv => negb (mem_ustr (fst kv) names) || negb (jvalue_eqb (snd kv) JNull)) l = l).
+    { induction l as [|kv l IHl]; intros Hl; [reflexivity|]. cbn [filter].
+      assert (E : jvalue_eqb (snd kv) JNull = false).
+      { destruct (snd kv) eqn:Es; try reflexivity. exfalso. apply (Hl kv); [left; auto|exact Es]. }
+      rewrite E. rewrite orb_true_r. f_equal. apply IHl. intros kv' Hin2. apply Hl. right. exact Hin2. }
+    apply Hall. intros [k v] Hkv. cbn [snd].
+    destruct (Hmem sp pok c sc mem m Hfsp Hcaf Hvalid Hinp k v Hkv) as (s & s' & _ & _ & _ & _ & _ & Hval).
+    destruct (valid_not_absent _ _ _ _ _ Hval) as [Nn _]. exact Nn. }
   (* the result, with or without the deterministic id *)
-  clear Egen.
   destruct (cinit c) eqn:Ei; try discriminate K3.
+  all: try rewrite Epos.
   all: fold vrefs; rewrite Hgen; cbn [bind].
   all: destruct (cfamily c) eqn:Efam; destruct (cver c) eqn:Ever;
     try (exists setting, (defaulted_names c setting); split; [reflexivity|split; [reflexivity|split; [reflexivity|split;
